@@ -13,6 +13,7 @@ import (
 	"github.com/reactivego/ivg/decode"
 	"github.com/reactivego/ivg/generate"
 	"github.com/reactivego/ivg/mdicons"
+	"github.com/reactivego/ivg/raster"
 	"github.com/reactivego/ivg/render"
 	"golang.org/x/image/math/f32"
 )
@@ -59,6 +60,62 @@ func RunRen(rect image.Rectangle, samples []image.Point, ops []Call) (obs string
 		return "-", rec
 	}
 	return strings.Join(rec.Log, " ; "), rec
+}
+
+// RunRenWrapped is RunRen with both logging wrappers of the library in the pipeline: the calls go through an
+// ivg.DestinationLogger into the Renderer, whose rasteriser is a raster.RasterizerLogger around the recorder.
+// (Both print every call; the caller silences stdout.)
+func RunRenWrapped(rect image.Rectangle, samples []image.Point, ops []Call, alt bool) (obs string) {
+	rec := &RecRaster{Samples: samples}
+	defer func() {
+		if p := recover(); p != nil {
+			obs = "PANIC:" + strings.ReplaceAll(fmt.Sprint(p), " ", "_")
+		}
+	}()
+	var z render.Renderer
+	z.SetRasterizer(&raster.RasterizerLogger{Rasterizer: rec}, rect)
+	dl := &ivg.DestinationLogger{Destination: &z, Alt: alt}
+	for _, op := range ops {
+		switch op.Name {
+		case "rc":
+			rec.Log = append(rec.Log, fmt.Sprintf("s=%d", dl.CSel()))
+		case "rn":
+			rec.Log = append(rec.Log, fmt.Sprintf("s=%d", dl.NSel()))
+		case "rlod", "bytes", "hires":
+		case "rast":
+			rec.Fresh()
+			z.SetRasterizer(&raster.RasterizerLogger{Rasterizer: rec}, op.Rect)
+		default:
+			op.Apply(dl)
+		}
+	}
+	if len(rec.Log) == 0 {
+		return "-"
+	}
+	return strings.Join(rec.Log, " ; ")
+}
+
+// monitorWrapped: the logging wrappers are transparent — the rasteriser sees the same calls with them as without.
+func monitorWrapped(pid, line string, rect image.Rectangle, samples []image.Point, ops []Call, alt bool) []Failure {
+	direct, _ := RunRen(rect, samples, ops)
+	var wrapped string
+	quietly(func() { wrapped = RunRenWrapped(rect, samples, ops, alt) })
+	if wrapped != direct {
+		a, b := strings.Split(direct, " ; "), strings.Split(wrapped, " ; ")
+		k := 0
+		for k < len(a) && k < len(b) && a[k] == b[k] {
+			k++
+		}
+		ea, eb := "(nothing)", "(nothing)"
+		if k < len(a) {
+			ea = a[k]
+		}
+		if k < len(b) {
+			eb = b[k]
+		}
+		return []Failure{{pid + ".through-logging-wrappers", line, fmt.Sprintf("rasteriser call %d is %s behind ivg.DestinationLogger and raster.RasterizerLogger, %s without them", k, eb, ea)}}
+	}
+	return nil
 }
 
 func parsePoints(s string) ([]image.Point, error) {
